@@ -24,3 +24,9 @@ def variants(rng, body):
         k = rng.randrange(len(body) + 1)
         out.append((body[:k] + m + body[k:], "magic-infix"))
     return out
+
+
+# Data that is itself the TEXT of an encoding: a command that takes bytes must not "helpfully" decode it.
+ENCODED_TEXTS = [b"0xdeadbeef", b"0xdeadbeef\n", b"0xDEADBEEF", b"deadbeef", b"0x", b"0x\n", b"0xCAFE 00\n", b"0x00", b"0x0", b"0xzz",
+                 b"3q2+7w==", b"3q2-7w", b"data:application/octet-stream;base64,3q2+7w==", b'{"a":1}', b'"quoted"', b"[1,2]", b"null", b"%41%42", b"\\x41\\x42",
+                 b"&amp;&#65;", b"=?utf-8?B?3q2+7w==?=", b"-----BEGIN X-----\n3q2+7w==\n-----END X-----\n", b"\x1f\x8b\x08\x00", b"0b1010", b"0o17", b"1e3", b"\\u0041"]
